@@ -133,7 +133,8 @@ void slab_destroy(struct Slab *slab)
 /* add new block of objects to slab */
 static void grow(struct Slab *slab)
 {
-	unsigned count, i, size;
+	unsigned count, i;
+	size_t size;
 	char *area;
 	struct SlabFrag *frag;
 
@@ -143,7 +144,7 @@ static void grow(struct Slab *slab)
 		count = 16 * 1024 / slab->final_size;
 	if (count < 50)
 		count = 50;
-	size = count * slab->final_size;
+	size = (size_t)count * slab->final_size;
 
 	/* allocate & init */
 	frag = cx_alloc0(slab->cx, size + sizeof(struct SlabFrag));
@@ -154,7 +155,7 @@ static void grow(struct Slab *slab)
 
 	/* init objects */
 	for (i = 0; i < count; i++) {
-		void *obj = area + i * slab->final_size;
+		void *obj = area + (size_t)i * slab->final_size;
 		struct List *head = (struct List *)obj;
 		list_init(head);
 		statlist_append(&slab->freelist, head);
